@@ -127,6 +127,9 @@ func (c *faultConn) ExecContext(ctx context.Context, q string, args []driver.Nam
 }
 
 func (c *faultConn) QueryContext(ctx context.Context, q string, args []driver.NamedValue) (driver.Rows, error) {
+	if err := point("query"); err != nil {
+		return nil, err
+	}
 	return c.c.QueryContext(ctx, q, args)
 }
 
